@@ -913,6 +913,23 @@ func (s *Server) RemoteHello(
 	s.lastPush = time.Now()
 	// mutations older than this snapshot are of no use for the new client
 	s.tracer.dataQueue = nil
+	// the tracer continues from the source's current clocks, not from its
+	// initial empty snapshot (the source may already have a history)
+	latestTime := export.Time
+	latestSum := tTrackedSum
+	if s.syncShallowClocks {
+		latestTime = am.NewTime(latestTime, latestTime.ActiveStates(nil))
+		latestSum = latestTime.Sum(nil)
+	}
+	s.tracer.dataLatest = &tracerData{
+		mTime:           latestTime,
+		mTrackedTimeSum: latestSum,
+		queueTick:       export.QueueTick,
+		machTick:        export.MachineTick,
+		checksum:        Checksum(latestSum, export.QueueTick, export.MachineTick),
+		tracked:         s.tracer.trackedStates,
+		trackedIdxs:     s.tracer.trackedStateIdxs,
+	}
 	s.clientId.Store(&req.Id)
 
 	s.log("RemoteHello: t%v q%d", tTrackedSum, export.QueueTick)
